@@ -55,6 +55,22 @@ def feed(arg):
     return {"next": a.sidx(r), "depths": depths}
 
 
+def detour(a, q, d):
+    """Two classes (o, cl) that lead from configuration (q, d) back to (q, d) by way of a deeper nesting level, or None."""
+    if not any(x[0] >= 1 for x in d.values()):
+        return None
+    for o in range(1, len(a.classes) + 1):
+        en, nd = model_step(a, q, d, o)
+        if len(en) != 1 or nd == d or any(x[0] >= extract.MAXD for x in nd.values()):
+            continue
+        q1 = en[0][2]
+        for cl in range(1, len(a.classes) + 1):
+            en2, nd2 = model_step(a, q1, nd, cl)
+            if len(en2) == 1 and en2[0][2] == q and nd2 == d:
+                return (o, cl)
+    return None
+
+
 def model_step(a, q, d, c):
     """The table semantics in Python (mirror of AutomatonSem.EnabledSet / NextD) for comparing.
     d[p] = (depth, satisfied)."""
@@ -78,11 +94,89 @@ def sig_amb(a, q, d, c):
             "enabled": sorted(extract.describe(a.preds[t[1] - 1]) for t in en), "token_class": list(a.classes[c - 1])}
 
 
+SEARCH_TOKENS = [("Punctuation", "("), ("Punctuation", ")"), ("Punctuation", "{"), ("Punctuation", "}"), ("Punctuation", "=>"), ("Punctuation", ";"), ("Punctuation", ","),
+                 ("Operator", "="), ("Operator", ":"), ("Operator", "<"), ("Operator", ">"), ("Name", "x"), ("Name.Function", "f"), ("Name.Other", "let"), ("Keyword", "const"),
+                 ("Keyword", "function"), ("Keyword", "async"), ("Keyword", "def"), ("Keyword", "throws"), ("Keyword", "where"), ("Keyword.Declaration", "var"), ("Literal.String", "("),
+                 ("Keyword.Type", "int"), ("Punctuation", "["), ("Punctuation", "]")]
+
+
+def code_search(depth=8):
+    """When the tables cannot be extracted (a predicate carries state the abstraction does not know), the question is put to
+    the code alone: a bounded search over real Patterns - every header / follow-up expression of every language, every token
+    sequence over a fixed alphabet up to `depth` that keeps the attempt alive, configurations told apart by the whole state
+    of their predicates.  A ValueError('Multiple transitions') found this way is a real sequence of real tokens: a violation.
+    Finding none decides nothing."""
+    from pygments.token import string_to_tokentype
+
+    from codelimit.common.gsm.Expression import expression_to_nfa, nfa_to_dfa
+    from codelimit.common.gsm.Pattern import Pattern
+    from codelimit.common.Location import Location
+    from codelimit.common.Token import Token
+    from codelimit.languages import Languages
+
+    toks = [Token(Location(1, 1), string_to_tokentype(k), v) for k, v in SEARCH_TOKENS]
+    by_ext = {"C": "f.c", "C++": "f.cpp", "C#": "f.cs", "Java": "f.java", "JavaScript": "f.js", "TypeScript": "f.ts", "Python": "f.py"}
+    for lname in sorted(Languages.by_name):
+        fn = by_ext.get(lname)
+        if fn is None:
+            continue
+        for kind, expr in extract.capture_language(Languages.by_name[lname], fn, extract.SEEDS[fn]):
+            dfa = nfa_to_dfa(expression_to_nfa(expr))
+
+            def run_path(path):
+                p = Pattern(0, dfa)
+                for i in path:
+                    if p.consume(toks[i]) is None:
+                        return None
+                return p
+
+            def sig(p):
+                parts = []
+                for pred in p.predicate_map.values():
+                    sp = extract.stateful_part(pred)
+                    if sp is not None:
+                        parts.append(tuple(sorted((a, b) for a, b in vars(sp).items() if isinstance(b, (bool, int, str, type(None))))))
+                return (p.state.id, tuple(sorted(parts)))
+
+            frontier, seen = [()], set()
+            for _level in range(depth):
+                nxt = []
+                for path in frontier:
+                    for i in range(len(toks)):
+                        try:
+                            p = run_path(path + (i,))
+                        except ValueError as e:
+                            return {"language": lname, "kind": kind, "expression": extract.describe(expr), "tokens": [list(SEARCH_TOKENS[j]) for j in path + (i,)], "error": str(e)}
+                        if p is None:
+                            continue
+                        k = sig(p)
+                        if k not in seen:
+                            seen.add(k)
+                            nxt.append(path + (i,))
+                frontier = nxt
+    return None
+
+
 def run(tier: str) -> int:
     t = Timer()
     rep = Reporter(PROP)
     wd = workdir(PROP)
-    A = autos()
+    try:
+        A = autos()
+    except MachineryError as e:
+        if "carries state other than" not in str(e):
+            raise
+        hit = guarded(code_search, 8 if tier == "quick" else 10, 600)
+        if hit[0] == "ok" and hit[1] is not None:
+            h = hit[1]
+            rep.fail({"clause": "AtMostOneTransition:CodeSearch", "languages": h["language"], "expression": h["expression"]}, {"kind": "code_search", **h})
+            rc = rep.finish()
+            evidence.write(PROP, tier, level="model_checking", wall_s=t.s(), violations=rep.n_violations,
+                           coverage={"states": 1, "transitions": 1, "traces_validated_against_impl": 1, "exhaustive": False, "samples": [h],
+                                     "note": "the tables could not be extracted (" + str(e) + "); the ambiguity was found by a bounded search over real Patterns"},
+                           assumptions=["fallback: bounded code-side search, no model involved"])
+            return rc
+        raise
     data = extract.tla_module(A)
     cfg = tlc.cfg(spec="Spec", invariants=["TypeOK", "ReportAmbiguous"], view="Config")
     m = tlc.run("TokenAutomaton", cfg, wd, extra={"AutomatonData.tla": data}, dump=True)
@@ -103,6 +197,7 @@ def run(tier: str) -> int:
     # ---- G: every configuration x every class replayed into a real Pattern -------------------
     subs = [0] if tier == "quick" else [0, 1, 2]
     jobs, meta = [], []
+    n_detours = 0
     for (k, q, d, path) in configs:
         a = A[k - 1]
         if any(x[0] >= extract.MAXD for x in d.values()):
@@ -111,6 +206,15 @@ def run(tier: str) -> int:
             for sub in subs:
                 jobs.append((k - 1, path, c, sub))
                 meta.append((k, q, d, path, c))
+        # the same configuration reached the long way round: a nested group opened and closed again behind the witness path
+        # (two classes o, cl that lead from (q, d) back to (q, d) in the model) - what is enabled depends on the configuration,
+        # not on how it was reached
+        det = detour(a, q, d)
+        if det is not None:
+            n_detours += 1
+            for c in range(1, len(a.classes) + 1):
+                jobs.append((k - 1, tuple(path) + det, c, 0))
+                meta.append((k, q, d, tuple(path) + det, c))
     res = pmap(feed, jobs, timeout=20)
     replayed = 0
     code_amb = 0
@@ -277,6 +381,13 @@ def replay_header(path: str, prop: str) -> int:
 
 def replay(path: str) -> int:
     case = json.loads(open(path).read())
+    if case.get("kind") == "code_search":
+        hit = guarded(code_search, len(case["tokens"]), 1500)
+        print("searched again:", hit)
+        if hit[0] == "ok" and hit[1] is not None:
+            print(f"VIOLATION property={PROP} replay={path}")
+            return 1
+        return 0
     r = guarded(feed, (case["auto_index"], tuple(case["path"]), case["class"], 0), 20)
     print("automaton:", case["automaton"]["expression"])
     print("path:", case["path_classes"], "then", case["token_class"])
